@@ -612,7 +612,9 @@ func (sc *specCtx) evalCall(x *ast.CallExpr) Value {
 		bv := FreshVar(id.Name, SInt)
 		n := sc.child()
 		n.env[id.Name] = bv
+		sc.st.quantDepth++ // no state-level facts about terms mentioning the bound variable
 		body := n.evalBool(x.Args[3])
+		sc.st.quantDepth--
 		return Forall(bv, Imp(And(Le(lo, bv), Lt(bv, hi)), body))
 	case "all":
 		// all(x, body): unbounded integer quantifier (axioms)
